@@ -32,14 +32,36 @@ func (p *Prog) canonFor(fn *ssa.Function) *canonizer {
 		return v.(*canonizer)
 	}
 	c := &canonizer{p: p, fn: fn, memo: map[ssa.Value]string{}, stable: map[string]bool{}}
-	// element types stored to in fn (through anything but a local Alloc that never escapes is irrelevant; be conservative)
+	// stores of fn, keyed by the shape of the address: element of a slice/array type, field of a struct type, or anything else
 	stored := map[string]bool{}
 	eachInstr(fn, func(b *ssa.BasicBlock, in ssa.Instruction) {
-		if st, ok := in.(*ssa.Store); ok {
-			stored[typeStr(derefType(st.Addr.Type()))] = true
+		switch x := in.(type) {
+		case *ssa.Store:
+			for _, k := range storeKeys(x.Addr) {
+				stored[k] = true
+			}
+		case ssa.CallInstruction:
+			cm := x.Common()
+			if bi, ok := cm.Value.(*ssa.Builtin); ok {
+				if bi.Name() == "copy" {
+					stored["idx:"+typeStr(cm.Args[0].Type())] = true
+				}
+				return
+			}
+			// a module callee (or a callback-taking stdlib function) may write elements of a slice it is given
+			g := staticCallee(cm)
+			for _, a := range cm.Args {
+				switch a.Type().Underlying().(type) {
+				case *types.Slice, *types.Pointer:
+					if g == nil || p.InModule(g) && p.calleeStoresIdx(g, typeStr(a.Type()), map[*ssa.Function]bool{}) || g != nil && !p.InModule(g) && extWritesArg(extName(g)) {
+						stored["idx:"+typeStr(a.Type())] = true
+						stored["any:"+typeStr(derefType(a.Type()))] = true
+					}
+				}
+			}
 		}
 	})
-	c.stable = stored // inverted meaning: stored[T]==true => unstable
+	c.stable = stored // meaning: stored[k]==true => loads of shape k are not canonicalised
 	p.facts[key] = c
 	return c
 }
@@ -131,7 +153,13 @@ func (c *canonizer) compute(v ssa.Value) string {
 			}
 			switch a := x.X.(type) {
 			case *ssa.IndexAddr, *ssa.FieldAddr:
-				if !c.stable[typeStr(derefType(a.Type()))] && c.rootedOutside(a) {
+				unstable := c.stable["any:"+typeStr(derefType(a.Type()))]
+				for _, k := range storeKeys(a) {
+					if c.stable[k] {
+						unstable = true
+					}
+				}
+				if !unstable && c.rootedOutside(a) {
 					return "ld(" + c.of(a) + ")"
 				}
 			}
@@ -244,4 +272,62 @@ func pureExt(name string) bool {
 		return name != "errors.New"
 	}
 	return false
+}
+
+// storeKeys classifies an address by shape: "idx:<slice type>", "fld:<struct>.<i>", or "any:<elem type>".
+func storeKeys(addr ssa.Value) []string {
+	switch a := addr.(type) {
+	case *ssa.IndexAddr:
+		return []string{"idx:" + typeStr(a.X.Type())}
+	case *ssa.FieldAddr:
+		return []string{fmt.Sprintf("fld:%s.%d", typeStr(derefType(a.X.Type())), a.Field)}
+	case *ssa.Alloc, *ssa.Global:
+		return nil
+	}
+	return []string{"any:" + typeStr(derefType(addr.Type()))}
+}
+
+// calleeStoresIdx: a module function that (transitively) stores into elements of a slice/array of the given type.
+func (p *Prog) calleeStoresIdx(g *ssa.Function, typ string, seen map[*ssa.Function]bool) bool {
+	if seen[g] {
+		return false
+	}
+	seen[g] = true
+	found := false
+	eachInstr(g, func(b *ssa.BasicBlock, in ssa.Instruction) {
+		switch x := in.(type) {
+		case *ssa.Store:
+			if ia, ok := x.Addr.(*ssa.IndexAddr); ok && typeStr(ia.X.Type()) == typ {
+				found = true
+			}
+			if _, ok := x.Addr.(*ssa.IndexAddr); !ok {
+				if _, ok := x.Addr.(*ssa.FieldAddr); !ok {
+					if _, ok := x.Addr.(*ssa.Alloc); !ok {
+						if _, ok := x.Addr.(*ssa.Global); !ok {
+							found = true // store through an arbitrary pointer
+						}
+					}
+				}
+			}
+		case ssa.CallInstruction:
+			if h := staticCallee(x.Common()); h != nil && p.InModule(h) {
+				if p.calleeStoresIdx(h, typ, seen) {
+					found = true
+				}
+			} else if h != nil && extWritesArg(extName(h)) {
+				found = true
+			} else if h == nil && !x.Common().IsInvoke() {
+				if _, isB := x.Common().Value.(*ssa.Builtin); !isB {
+					found = true
+				}
+			}
+		}
+	})
+	return found
+}
+
+// extWritesArg: standard-library functions that modify memory reachable from their arguments.
+func extWritesArg(name string) bool {
+	return hasPrefixAny(name, "sort.", "(*encoding/json.Decoder).Decode", "encoding/json.Unmarshal", "(*encoding/gob.Decoder).Decode",
+		"(*encoding/xml.Decoder).Decode", "encoding/xml.Unmarshal", "io.ReadFull", "io.ReadAtLeast", "(*os.File).Read", "(*bytes.Buffer).Read", "copy")
 }
